@@ -852,6 +852,13 @@ func (ed Editor) WrapOpts(width int, opts Options) Editor {
 			sepEnd := gem.RepeatStr("A", sepSuffix.Len())
 			textBlock := manip.Wrap(sepStart.Add(para).Add(sepEnd), width, gem.New(opts.LineSeparator))
 			text := textBlock.Join()
+
+			// take the placeholders for the separator's affixes back out
+			if sepEnd.Len() > 0 {
+				text = text.Sub(sepStart.Len(), -sepEnd.Len())
+			} else {
+				text = text.Sub(sepStart.Len(), text.Len())
+			}
 			return []gem.String{text}
 		}, opts)
 		return edi
